@@ -73,7 +73,8 @@ def crossed(draw):
                 q = draw(st.sampled_from([x for x in (0.0, 0.25, 0.5, 0.75) if x <= common]))
             li = len(players)
             players.append(PR)
-            rew.append(draw(st.sampled_from(games.GENERIC_REWARDS)))
+            # lottery rewards include near-coincident large values (1e-6 absolute < gap < 1e-9 relative)
+            rew.append(draw(st.sampled_from(games.GENERIC_REWARDS + (4097.0, 4097.000002, 2e9, 2e9 + 1))))
             if q == 1.0:
                 tl.append([(1, 1)])
             elif q == 0.0:
@@ -81,6 +82,12 @@ def crossed(draw):
             else:
                 tl.append([(q, 1), (1 - q, 2)])
             acts.append((games.NAMES[k], li))
+        if draw(st.integers(0, 2)) == 0:
+            # two lotteries of this branch pay nearly the same large amount: more than 1e-6 apart in absolute
+            # terms (so the reported strategy is a single action), less than 1e-9 apart in relative terms
+            base, delta = draw(st.sampled_from(((4097.0, 2e-6), (2e9, 1.0), (1e6, 3e-4), (65536.0, 2.5e-5))))
+            i, j = draw(st.permutations([acts[0][1], acts[1][1]]))
+            rew[i], rew[j] = base, base + delta
         tl[bi] = list(draw(st.permutations(acts)))
         root.append((games.NAMES[b], bi))
     tl[0] = list(draw(st.permutations(root)))
@@ -142,15 +149,17 @@ def check_case(case):
             continue
         acts = [a_ for a_, _ in lst]
         if s in scope:
-            vals = [rstar[t_] for _, t_ in lst]
-            opt = max(vals) if pl == P1 else min(vals)
-            close = [i for i, x in enumerate(vals) if abs(x - opt) <= 2 * t + 1e-6]
-            if len({lst[i][1] for i in close}) >= 2 or len(close) >= 2:
+            # the statement's own precondition: the REPORTED final strategy is a single action.  A single
+            # reported action means its rounded value is strictly best, hence its unrounded value too, so
+            # the successor the diagnostics follow is that action - however close the runner-up is.
+            if not isinstance(a.final[s], list) or len(a.final[s]) != 1 or a.final[s][0] not in acts or \
+                    acts.count(a.final[s][0]) != 1:
                 v.cls("tie_skipped")
                 return v
-            if not isinstance(a.final[s], list) or len(a.final[s]) != 1 or a.final[s][0] not in acts:
-                v.cls("not_single_action_skipped")
-                return v
+            vals = [rstar[t_] for _, t_ in lst]
+            opt = max(vals) if pl == P1 else min(vals)
+            if len(vals) >= 2 and sorted(abs(x - opt) for x in vals)[1] <= 2 * t + 1e-6:
+                v.cls("near_tie_with_single_reported_action")
             choice[s] = acts.index(a.final[s][0])
         else:
             choice[s] = 0
